@@ -294,12 +294,11 @@ def read_summary(text, width, name="lay.i"):
 # ------------------------------------------------------------------------------ re-layout
 C_LINE = re.compile(r"^ {0,4}[cC]( |$)")
 
-# features that the current reader is known to mishandle (one defect: continue_input = line.endswith(" &\n") on every
-# line; and: text after the data block): trigger predicates of the known findings decide from these
-UNTIDY = ("amp_trailing_blank", "amp_last_column", "amp_then_comment", "comment_ends_amp", "dollar_ends_amp",
-          "tail_text")
-SAFE = ("amp_low_indent", "trailing_blanks", "indented_comment", "bare_c", "crlf", "message_added", "message_removed",
-        "comment_trailing_blanks")
+# features that the reader without repair C11-1 is known to mishandle (one defect: continue_input =
+# line.endswith(" &\n") evaluated on every line): trigger predicates of the known findings decide from these
+UNTIDY = ("amp_trailing_blank", "amp_last_column", "amp_then_comment", "comment_ends_amp", "dollar_ends_amp")
+SAFE = ("amp_low_indent", "trailing_blanks", "indented_comment", "crlf", "message_added", "message_removed",
+        "comment_trailing_blanks", "tail_text", "tabify", "card_indent", "comment_case")
 FEATURES = SAFE + UNTIDY
 
 
@@ -317,10 +316,28 @@ def xlen(l):
     return len(l.expandtabs(8))
 
 
+def _tabify(l, width, r):
+    """replace single blanks between two tokens of the data part by tabs while the line stays inside the limit"""
+    cut = l.find("$")
+    data, tail = (l, "") if cut < 0 else (l[:cut], l[cut:])
+    out = data
+    pos = [m.start() for m in re.finditer(r"(?<=[^ \t]) (?=[^ \t])", data)]
+    k = 0
+    for p in pos:
+        if r[k % len(r)] < 0.7:
+            cand = out[:p] + "\t" + out[p + 1:]
+            if xlen(cand + tail) <= width - 1:
+                out = cand
+        k += 1
+    return out + tail
+
+
 def relayout(rng, text, allow=FEATURES, width=128):
-    """-> (new text, sorted list of features used).  Only re-layouts MCNP's format allows: nothing is added to a line
-    beyond the column limit, an '&' is never put on a line with a '$' comment, comment lines get their C in columns
-    1-5, the front matter (message block, title) is only touched by adding / removing a message block."""
+    """-> (new text, sorted list of features used).  Only re-layouts MCNP's format allows: nothing is pushed beyond
+    the column limit (the LF counts for MontePy, so lines stay below it), an '&' is never put on a line with a '$'
+    comment, comment lines get their C in columns 1-5, a card never starts with a '#', a 'c ' or beyond column 5,
+    the front matter (message block, title) is only touched by adding / removing a message block.
+    The random draws do not depend on `allow`: switching a feature off leaves everything else as it was."""
     eol = "\r\n" if "\r\n" in text else "\n"
     lines = text.replace("\r\n", "\n").split("\n")
     if lines and lines[-1] == "":
@@ -329,53 +346,73 @@ def relayout(rng, text, allow=FEATURES, width=128):
     feats = set()
     out = []
     prev_amp = False          # the previous data line of this block ends in a continuing '&'
-    prev_hidden = False       # ... and that '&' is one the current reader does not see
+    prev_hidden = False       # ... in the last column: the reader without the repair does not see it
     com_since = False         # a comment line has followed that '&' line
+    new_card = True           # the next data line starts a card
+    blanks_seen = 0
     for i, l in enumerate(rest):
+        r = [rng.random() for _ in range(16)]
+        k4 = 1 + int(r[10] * 4)          # 1..4
+        k04 = int(r[11] * 5)             # 0..4
         is_c = bool(C_LINE.match(l))
+        is_blank = not l.strip()
+        starts_card = (not is_c) and (not is_blank) and l[:5].strip() != "" and not prev_amp
         if is_c and prev_amp:
             com_since = True
-        if prev_amp and not is_c and l.strip():
-            if "amp_then_comment" in allow and rng.random() < 0.25:
-                out.append(rng.choice(["c between", "C", "  c in between"]))
+        if prev_amp and not is_c and not is_blank:
+            if "amp_then_comment" in allow and r[0] < 0.25:
+                out.append(["c between", "C", "  c in between"][int(r[1] * 3)])
                 com_since = True
             low_ok = "amp_low_indent" in allow and (not prev_hidden or "amp_last_column" in allow) \
                 and (not com_since or "amp_then_comment" in allow)
-            if low_ok and rng.random() < 0.5:
+            if low_ok and r[2] < 0.5:
                 body = l.lstrip(" ")
-                k = rng.randint(0, 4)
                 # the line must not turn into a comment line or a vertical-format line
-                if not re.match(r"^[cC]( |$)", body) and "#" not in (" " * k + body)[:5] and "\t" not in body[:5] \
+                if not re.match(r"^[cC]( |$)", body) and "#" not in (" " * k04 + body)[:5] and "\t" not in body[:5] \
                         and body and not l.startswith("\t"):
-                    l = " " * k + body
+                    l = " " * k04 + body
                     feats.add("amp_low_indent")
                     if prev_hidden:
                         feats.add("amp_last_column")
                     if com_since:
                         feats.add("amp_then_comment")
+        if starts_card and "card_indent" in allow and r[3] < 0.15 and "\t" not in l[:6] \
+                and "#" not in (" " * k4 + l)[:5] and xlen(l) + k4 < width:
+            l = " " * k4 + l
+            feats.add("card_indent")
+        if (not is_c) and (not is_blank) and "tabify" in allow and r[4] < 0.25:
+            l2 = _tabify(l, width, r[5:9])
+            if l2 != l:
+                l = l2
+                feats.add("tabify")
         amp = (not is_c) and "$" not in l and l.rstrip(" ").endswith(" &")
         hidden = amp and xlen(l.rstrip(" ")) >= width
-        if l.strip() and not is_c and "trailing_blanks" in allow and rng.random() < 0.15:
-            n = rng.choice([1, 2, 5])
+        if (not is_blank) and not is_c and "trailing_blanks" in allow and r[9] < 0.15:
+            n = [1, 2, 5][int(r[12] * 3)]
             if xlen(l) + n < width and (not amp or "amp_trailing_blank" in allow):
                 l = l + " " * n
                 feats.add("amp_trailing_blank" if amp else "trailing_blanks")
-        if is_c and "comment_trailing_blanks" in allow and rng.random() < 0.1 and xlen(l) + 3 < width:
+        if is_c and "comment_trailing_blanks" in allow and r[4] < 0.1 and xlen(l) + 3 < width:
             l = l + "   "
             feats.add("comment_trailing_blanks")
-        if is_c and "indented_comment" in allow and rng.random() < 0.3 and not l.startswith(" ") and xlen(l) + 4 < width:
-            l = " " * rng.randint(1, 4) + l
+        if is_c and "comment_case" in allow and r[5] < 0.3:
+            m = C_LINE.match(l)
+            ci = m.end() - (2 if l[m.end() - 1:m.end()] == " " else 1)
+            l = l[:ci] + l[ci].swapcase() + l[ci + 1:]
+            feats.add("comment_case")
+        if is_c and "indented_comment" in allow and r[6] < 0.3 and not l.startswith(" ") and xlen(l) + 4 < width:
+            l = " " * k4 + l
             feats.add("indented_comment")
-        if is_c and "comment_ends_amp" in allow and rng.random() < 0.1 and l.strip().lower() != "c" \
+        if is_c and "comment_ends_amp" in allow and r[7] < 0.1 and l.strip().lower() != "c" \
                 and xlen(l.rstrip()) + 9 < width:
             l = l.rstrip() + " see a &"
             feats.add("comment_ends_amp")
-        if (not is_c) and l.strip() and "$" in l and "dollar_ends_amp" in allow and rng.random() < 0.2 \
+        if (not is_c) and (not is_blank) and "$" in l and "dollar_ends_amp" in allow and r[8] < 0.2 \
                 and xlen(l.rstrip()) + 3 < width:
             l = l.rstrip() + " &"
             feats.add("dollar_ends_amp")
         out.append(l)
-        if l.strip():
+        if not is_blank:
             if not is_c:
                 prev_amp = amp
                 prev_hidden = hidden
@@ -384,17 +421,19 @@ def relayout(rng, text, allow=FEATURES, width=128):
             prev_amp = False
             prev_hidden = False
             com_since = False
-    if "tail_text" in allow and rng.random() < 0.1 and out and not out[-1].strip():
-        out += rng.choice([["c end of the problem"], ["notes kept after the last blank line: not part of the problem"],
-                           ["c", "c  history", "c"], ["nps 5"]])
+            blanks_seen += 1
+    r = [rng.random() for _ in range(8)]
+    if "tail_text" in allow and r[0] < 0.1 and out and not out[-1].strip() and blanks_seen >= 3:
+        out += [["c end of the problem"], ["notes kept after the last blank line: not part of the problem"],
+                ["c", "c  history", "c"], ["nps 5"]][int(r[1] * 4)]
         feats.add("tail_text")
-    if "message_added" in allow and not front[0].upper().startswith("MESSAGE:") and rng.random() < 0.2:
-        front = ["MESSAGE: " + rng.choice(["outp=o.txt", "datapath=/x/y"]), ""] + front
+    if "message_added" in allow and not front[0].upper().startswith("MESSAGE:") and r[2] < 0.2:
+        front = ["MESSAGE: " + ["outp=o.txt", "datapath=/x/y"][int(r[3] * 2)], ""] + front
         feats.add("message_added")
-    elif "message_removed" in allow and front[0].upper().startswith("MESSAGE:") and rng.random() < 0.3:
+    elif "message_removed" in allow and front[0].upper().startswith("MESSAGE:") and r[2] < 0.3:
         front = front[-1:]
         feats.add("message_removed")
-    if "crlf" in allow and eol == "\n" and rng.random() < 0.2:
+    if "crlf" in allow and eol == "\n" and r[4] < 0.2:
         eol = "\r\n"
         feats.add("crlf")
     return eol.join(front + out) + eol, sorted(feats)
